@@ -1,3 +1,3 @@
 SPECIFICATION Spec
-INVARIANTS NoUninitialisedAccess SpecNeverStuck InitialisedOnlyOnce InOutcomes Confluence CyclicNeverCompletes BlockedOnlyIfCyclic CompleteEndsDone PositionCasesConfluent SelfCasesCyclic TypeLabels
+INVARIANTS NoUninitialisedAccess SpecNeverStuck InitialisedOnlyOnce InOutcomes Confluence CyclicNeverCompletes BlockedOnlyIfCyclic CompleteEndsDone PositionCasesConfluent SelfCasesCyclic DeadCasesConfluent TypeLabels
 CHECK_DEADLOCK FALSE
